@@ -166,6 +166,11 @@ impl Record {
     /// assert_eq!(record.query(interval)?, 4);
     /// Ok::<_, std::io::Error>(())
     /// ```
+    ///
+    /// # Errors
+    ///
+    /// An error is returned if the start position of the interval is past the end of the
+    /// sequence.
     pub fn query(&self, interval: Interval) -> io::Result<u64> {
         let start = interval
             .start()
@@ -174,6 +179,19 @@ impl Record {
 
         let start =
             u64::try_from(start).map_err(|e| io::Error::new(io::ErrorKind::InvalidInput, e))?;
+
+        // The offset arithmetic below is only meaningful inside the sequence: past its end, it
+        // points into the following record (or past EOF).
+        if interval.start().is_some() && start >= self.length {
+            return Err(io::Error::new(
+                io::ErrorKind::InvalidInput,
+                format!(
+                    "invalid start position: expected <= {}, got {}",
+                    self.length,
+                    start + 1
+                ),
+            ));
+        }
 
         let line_base_count = self.line_base_count.get();
         let line_width = self.line_width.get();
